@@ -347,6 +347,124 @@ PRED_SEM = {
 }
 
 
+
+# ---------------------------------------------------------------- phase.rs evaluated on a finite domain with a host model of Rational64 (round 2)
+
+PHT = 'phase::Phase'
+
+
+def _ph_interp(facts):
+    from .. import minirust, ratsem
+    it = minirust.Interp(fuel=60000, facts=facts, inline=lambda c: c.startswith(('phase::', '<phase::')))
+    it.host_call = ratsem.host_call
+    it.host_into = ratsem.host_into
+    return it
+
+
+def _ph_call(facts, key, args):
+    return _ph_interp(facts).local_call(key, args)
+
+
+def _ph(v):
+    from .. import ratsem
+    return {'__struct__': PHT, 'r': ratsem.Rat(v)}
+
+
+def _ph_val(p):
+    from .. import minirust, ratsem
+    if not (isinstance(p, dict) and p.get('__struct__') == PHT and isinstance(p.get('r'), ratsem.Rat)):
+        raise minirust.NoEval('not a Phase: %r' % (p,))
+    return p['r'].v
+
+
+def _norm(q):
+    from fractions import Fraction as Fr
+    q = Fr(q) % 2
+    return q - 2 if q > 1 else q
+
+
+def ev_phase(facts):
+    """Phase against exact arithmetic modulo 2 on the representatives in (-1, 1] with denominators 1, 2, 3, 4, 5, 8: construction from unnormalised
+    fractions, every operator impl, the classification predicates, the conversions.  -> ({clause: (ok, counterexample)}, evaluations)"""
+    from fractions import Fraction as Fr
+    from .. import minirust, ratsem, rops
+    res = dict((k, [True, '']) for k in ('new-normalises', 'operators', 'predicates', 'conversions', 'constants'))
+    n = 0
+
+    def fail(k, msg):
+        if res[k][0]:
+            res[k] = [False, msg]
+    dens = (1, 2, 3, 4, 5, 8)
+    for d in dens:
+        for k in range(-3 * d - 1, 3 * d + 2):
+            q = Fr(k, d)
+            for key, arg in (('phase::Phase::new', ratsem.Rat(q)), ('<%s as std::convert::From<num::rational::Ratio<i64>>>::from' % PHT, ratsem.Rat(q)),
+                             ('<%s as std::convert::From<(i64, i64)>>::from' % PHT, (k, d))):
+                if key not in facts['fns']:
+                    continue
+                r = _ph_val(_ph_call(facts, key, [arg]))
+                n += 1
+                if r != _norm(q):
+                    fail('new-normalises', '%s(%s) = %s, the representative in (-1, 1] is %s' % (key.rsplit('::', 1)[0].rsplit(' ', 1)[-1] + '::' + key.rsplit('::', 1)[1], q, r, _norm(q)))
+    for i in range(-5, 6):
+        key = '<%s as std::convert::From<i64>>::from' % PHT
+        if key in facts['fns']:
+            r = _ph_val(_ph_call(facts, key, [i]))
+            n += 1
+            if r != _norm(i):
+                fail('conversions', 'Phase::from(%d) = %s' % (i, r))
+    reps = sorted(set(_norm(Fr(k, d)) for d in dens for k in range(-d, d + 1)))
+    z, o = _ph_val(_ph_call(facts, '<%s as num::Zero>::zero' % PHT, [])), _ph_val(_ph_call(facts, '<%s as num::One>::one' % PHT, []))
+    n += 2
+    if z != 0 or o != 1:
+        fail('constants', 'zero() = %s, one() = %s' % (z, o))
+    preds = {'<%s as num::Zero>::is_zero' % PHT: lambda q: q == 0, '<%s as num::One>::is_one' % PHT: lambda q: q == 1, PHT + '::is_pauli': lambda q: q.denominator == 1,
+             PHT + '::is_clifford': lambda q: q.denominator <= 2, PHT + '::is_proper_clifford': lambda q: q.denominator == 2, PHT + '::is_t': lambda q: q.denominator == 4}
+    for q in reps:
+        for key, ref in preds.items():
+            if key not in facts['fns']:
+                continue
+            r = _ph_call(facts, key, [_ph(q)])
+            n += 1
+            if r != ref(q):
+                fail('predicates', '%s answers %s on the phase %s' % (key.rsplit('::', 1)[1], r, q))
+        r = _ph_call(facts, PHT + '::to_rational', [_ph(q)])
+        n += 1
+        if not (isinstance(r, ratsem.Rat) and r.v == q):
+            fail('conversions', 'to_rational(%s) = %s' % (q, r))
+    # limit_denominator: CPython's Fraction.limit_denominator followed by normalisation (the closest fraction to -7/8 with denominator 1 is -1, i.e. the phase 1)
+    res['limit-denominator'] = [True, '']
+    lk = PHT + '::limit_denominator'
+    if lk in facts['fns']:
+        for q in reps:
+            for md in (2, 3, 4, 6, 8):
+                r = _ph_val(_ph_call(facts, lk, [_ph(q), md]))
+                n += 1
+                want = _norm(Fr(q).limit_denominator(md))
+                if r != want:
+                    fail('limit-denominator', 'limit_denominator(%s, %d) = %s, expected %s' % (q, md, r, want))
+    ops = [(key, op, is_assign) for key, op, is_assign, _s in rops.op_impls(facts, lambda t: t.replace('&', '').strip() == PHT) if key in facts['fns'] and len(facts['fns'][key]['params']) == 2]
+    negk = '<%s as std::ops::Neg>::neg' % PHT
+    for a in reps:
+        r = _ph_val(_ph_call(facts, negk, [_ph(a)]))
+        n += 1
+        if r != _norm(-a):
+            fail('operators', '-(%s) = %s' % (a, r))
+        for key, op, is_assign in ops:
+            rhs_int = key.endswith('<i64>>::' + key.rsplit('::', 1)[1]) or '<i64>' in key
+            for b in ((-3, -1, 0, 2, 5) if rhs_int else reps[::2]):
+                if op == 'Div' and b == 0:
+                    continue
+                x, y = _ph(a), (b if rhs_int else _ph(b))
+                r = _ph_call(facts, key, [x, y])
+                n += 1
+                got = _ph_val(x if is_assign else r)
+                bv = Fr(b)
+                want = _norm({'Add': a + bv, 'Sub': a - bv, 'Mul': a * bv, 'Div': (a / bv) if bv != 0 else 0}[op])
+                if got != want:
+                    fail('operators', '%s: %s %s %s = %s, expected %s' % (key, a, {'Add': '+', 'Sub': '-', 'Mul': '*', 'Div': '/'}[op], b, got, want))
+    return dict((k, tuple(v)) for k, v in res.items()), n
+
 def run(ck):
     facts = ck.facts
     ck.decided('D1 Phase is canonical by construction: private field, the only literal is in Phase::new and flows into normalize, no field writes',
@@ -355,7 +473,24 @@ def run(ck):
                'D4 the classification predicates are the reference predicates over the canonical representative',
                'D5 limit_denominator returns its argument unchanged when the denominator is within the bound (exact hits)')
     ck.decided('D6 limit_denominator is step for step CPython Fraction.limit_denominator (initial convergents, floor quotient, exit test before the update, state update, k, the tie rule 2*d*(q0+k*q1) <= denominator, both candidates), compared as polynomial transition functions modulo renaming')
-    ck.not_decided('that the reference algorithm itself returns the closest fraction (number theory; the reference is the trusted base the statement names)', 'float round-trip', 'group laws as value-level equalities (they follow from D1-D3 and Ratio arithmetic, which is trusted)')
+    ck.not_decided('that the reference algorithm itself returns the closest fraction (number theory; the reference is the trusted base the statement names)', 'float round-trip', 'phases with denominators outside the evaluated domain as values (D1-D3 cover all paths)')
+    # D0 (round 2): phase.rs evaluated with a host model of Rational64 on the representatives with denominators 1, 2, 3, 4, 5, 8
+    from .. import minirust as _mr
+    try:
+        sem, nev = ev_phase(facts)
+        msgs = {'new-normalises': 'every constructor returns the representative in (-1, 1]', 'operators': 'every operator impl computes the operation modulo 2 in operand order and returns a normalised phase',
+                'predicates': 'the classification predicates agree with the value', 'conversions': 'conversions preserve the value', 'constants': 'zero() and one() are 0 and 1', 'limit-denominator': 'limit_denominator is the closest fraction within the bound, normalised'}
+        for name, (ok, cex) in sorted(sem.items()):
+            ck.ob('E3-phase', name, ok, 'quizx/src/phase.rs', '%s: %s' % (msgs[name], cex), sample={'evaluations': nev})
+        ck.floor('E3-phase-evaluations', nev, 4000)
+        ck.note('phase.rs: %d evaluations against exact arithmetic modulo 2' % nev)
+        if all(v[0] for v in sem.values()):
+            why = 'the values were decided by E3-phase in this run'
+            ck.positive_only = {'R-OPS': why, 'R-TABLE-pred': why, 'R-ENCAP': why}
+    except _mr.Panics as ex:
+        ck.ob('E3-phase', 'no-panic', False, 'quizx/src/phase.rs', 'a phase operation panics on a small phase: %s' % ex)
+    except (_mr.NoEval, _mr.Proceed, TypeError, KeyError, IndexError, AttributeError, ValueError) as ex:
+        ck.ob3('E3-phase', 'evaluable', None, 'quizx/src/phase.rs', 'phase.rs is not evaluable by the interpreter (%s: %s): the value-level clauses are not decided (the structural rules below still are)' % (type(ex).__name__, ex))
     # D1
     for key, ok, site, msg in d1_encap(ck, facts):
         ck.ob('R-ENCAP', 'Phase/' + key, ok, ck.site(site) if site in ck.fns else site, msg, sample={'check': key})
